@@ -306,6 +306,7 @@ class ID3(ID3Tags, mutagen.Metadata):
 
         delete(filething, delete_v1, delete_v2)
         self.clear()
+        self.unknown_frames = []
 
 
 @convert_error(IOError, error)
